@@ -96,22 +96,25 @@ inductive Role where
   | coord  -- this relayer coordinates: `initiate`
 deriving DecidableEq, Repr
 
+/-- how the FIRST attempt of a session ends -/
 inductive Outcome where
   | ok          -- started, every process returned nil
-  | fail        -- started, a process returned an error
+  | fail        -- started, a process returned an unclassified error
   | failmsg     -- started, the coordinator announced failure (TssFailMsg)
   | gtorun      -- started, global time-out while running
   | cancelrun   -- started, caller's context cancelled while running
-  | silent      -- never started: coordinator silent until CoordinatorTimeout
+  | silent      -- never started: coordinator silent until CoordinatorTimeout (a CoordinatorError)
   | gto         -- never started: global time-out (TssTimeout)
   | cancel      -- never started: caller's context cancelled
   | badstart    -- never started: start message does not parse
   | stranger    -- never started: start/initiate only from a relayer that is not the coordinator, then silence
   | readyerr    -- never started: the process refuses the ready set (`Ready` returns an error)
+  | comm        -- started, a process returned a CommunicationError / tss.Error (retried through a bully election)
+  | subset      -- started, a process returned SubsetError (this relayer is not in the signing subset)
 deriving DecidableEq, Repr
 
 def Outcome.ran : Outcome → Bool
-  | .ok | .fail | .failmsg | .gtorun | .cancelrun => true
+  | .ok | .fail | .failmsg | .gtorun | .cancelrun | .comm | .subset => true
   | _ => false
 
 /-- `Execute` returns nil exactly when `start` returned nil: success, or the context was cancelled -/
@@ -119,14 +122,45 @@ def Outcome.retOk : Outcome → Bool
   | .ok | .cancelrun | .cancel => true
   | _ => false
 
+/-- who coordinates the SECOND attempt (`handleError`, retryable processes only) -/
+inductive Elected where
+  | self    -- bully election, this relayer is elected: `initiate`
+  | other   -- bully election, another relayer claims the role: `waitForStart` for it
+  | any     -- no election (SubsetError): `waitForStart` for a start message from anybody, up to TssTimeout
+deriving DecidableEq, Repr
+
+/-- how the second attempt ends -/
+inductive End2 where
+  | ok       -- started again, every process returned nil
+  | fail     -- started again, a process returned an error
+  | cancel   -- started again, caller's context cancelled while running
+  | idle     -- not started again; caller's context cancelled while waiting
+  | silent   -- not started again; the elected coordinator stayed silent (CoordinatorError)
+deriving DecidableEq, Repr
+
+def End2.ran : End2 → Bool
+  | .ok | .fail | .cancel => true
+  | _ => false
+
+def End2.retOk : End2 → Bool
+  | .ok | .cancel | .idle => true
+  | _ => false
+
+structure Second where
+  elected : Elected
+  fin     : End2
+deriving DecidableEq, Repr
+
 structure Sess where
-  sid   : Sid
-  role  : Role
-  nproc : Nat
-  out   : Outcome
+  sid       : Sid
+  role      : Role
+  nproc     : Nat
+  out       : Outcome
+  retryable : Bool := false         -- `Retryable()` of the processes (signing): a failed first attempt enters `handleError`
+  second    : Option Second := none -- the second attempt, if `handleError` classifies the failure (silent | comm | subset)
 deriving Repr
 
-/-- the registries a session touches -/
+/-- the registries a session touches (kept for the retried-process model below) -/
 structure Reg where
   pending : List Sid
   live    : List (Sid × Nat)    -- live subscriptions: (session id, subscription id)
@@ -141,67 +175,171 @@ def Reg.subscribe (r : Reg) (sid : Sid) (k : Nat) : Reg × List Nat :=
 def Reg.unsubscribe (r : Reg) (ids : List Nat) : Reg :=
   { r with live := r.live.filter (fun x => !ids.contains x.2) }
 
+/-- subscriptions obtained together (by one wait loop, or by the processes of one Run) -/
+structure Blk where
+  sid  : Sid
+  id   : Nat      -- handle of the group (unique: the nonce assumption)
+  size : Nat      -- how many subscriptions
+deriving DecidableEq, Repr
+
+/-- what a session touches: the coordinator's flags, the registries of the MPC communication and of the election
+    communication (`comm/elector` has its own protocol id, subscription manager and stream manager) -/
+structure Led where
+  pending  : List Sid
+  live     : Sid → List Blk   -- MPC communication: live subscriptions per session id (`subscribersMap[sessionID]`;
+                              -- a subscription id carries its session id, so a release only ever looks there)
+  streams  : List Sid         -- MPC communication: session ids with open streams
+  elive    : Sid → List Blk   -- election communication: live subscriptions per session id
+  estreams : List Sid         -- election communication: session ids with open streams
+  next     : Nat              -- handles given out so far
+  subs     : Nat              -- MPC subscriptions obtained so far
+  unsubs   : Nat              -- MPC subscriptions released so far
+
+def sizeOf' (bs : List Blk) : Nat := (bs.map (·.size)).sum
+
+def upd (f : Sid → List Blk) (sid : Sid) (v : List Blk) : Sid → List Blk := fun s => if s = sid then v else f s
+
+def Led.sub (l : Led) (sid : Sid) (k : Nat) : Led × Nat :=
+  ({ l with live := upd l.live sid (l.live sid ++ [⟨sid, l.next, k⟩]), next := l.next + 1, subs := l.subs + k }, l.next)
+
+def Led.unsub (l : Led) (sid : Sid) (id : Nat) : Led :=
+  { l with live := upd l.live sid ((l.live sid).filter (·.id ≠ id)),
+           unsubs := l.unsubs + sizeOf' ((l.live sid).filter (·.id = id)) }
+
+def Led.esub (l : Led) (sid : Sid) (k : Nat) : Led × Nat :=
+  ({ l with elive := upd l.elive sid (l.elive sid ++ [⟨sid, l.next, k⟩]), next := l.next + 1 }, l.next)
+
+def Led.eunsub (l : Led) (sid : Sid) (id : Nat) : Led :=
+  { l with elive := upd l.elive sid ((l.elive sid).filter (·.id ≠ id)) }
+
+def Led.unsubOpt (l : Led) (sid : Sid) : Option Nat → Led
+  | some i => l.unsub sid i
+  | none => l
+
+def liveOf (f : Sid → List Blk) (sid : Sid) : Nat := sizeOf' (f sid)
+
 inductive Ret where
   | ok | err | refused
 deriving DecidableEq, Repr
 
 structure Report where
-  ret     : Ret
-  sub     : Nat          -- subscriptions obtained for the session id
-  unsub   : Nat          -- of those, released
-  close   : Nat          -- CloseSession calls
-  live    : Nat          -- subscriptions of the session id still registered at exit
-  streams : Nat          -- 1 if streams of the session id are still held at exit
-  runs    : List Nat     -- per process: Run calls
-  stops   : List Nat     -- per process: Stop calls
-  pend    : Bool         -- flag at exit
+  ret      : Ret
+  sub      : Nat          -- subscriptions obtained for the session id (MPC communication)
+  unsub    : Nat          -- of those, released
+  close    : Nat          -- CloseSession calls
+  live     : Nat          -- subscriptions of the session id still registered at exit
+  streams  : Nat          -- 1 if streams of the session id are still held at exit
+  runs     : List Nat     -- per process: Run calls
+  stops    : List Nat     -- per process: Stop calls
+  pend     : Bool         -- flag at exit
+  elive    : Nat          -- election communication: subscriptions of the session id still registered at exit
+  estreams : Nat          -- election communication: 1 if streams of the session id are still held
 deriving Repr, DecidableEq
 
-/-- subscriptions of the coordinator's own wait loops: fail-watch + (initiate, start | ready) -/
+/-- subscriptions of the coordinator's own wait loops in the first attempt: fail-watch + (initiate, start | ready) -/
 def waitSubs : Role → Nat
   | .part => 3
   | .coord => 2
 
-/-- `Execute` for one session, in the order the code performs the calls -/
-def execute (r : Reg) (s : Sess) : Reg × Report :=
-  if s.sid ∈ r.pending then
+/-- subscriptions of the second attempt's wait loop (`handleError`'s fail-watch is counted separately) -/
+def waitSubs2 : Elected → Nat
+  | .self => 1
+  | _ => 2
+
+/-- a bully election (repaired elector): six subscriptions and the election streams, all given back when it ends -/
+def election (l : Led) (sid : Sid) : Led :=
+  let (l1, e) := l.esub sid 6
+  let l2 := { l1 with estreams := sid :: l1.estreams }
+  let l3 := l2.eunsub sid e
+  { l3 with estreams := l3.estreams.filter (· ≠ sid) }
+
+/-- as found, the elector dropped its subscription ids and nobody closed the election streams -/
+def electionAsFound (l : Led) (sid : Sid) : Led :=
+  let (l1, _) := l.esub sid 6
+  { l1 with estreams := sid :: l1.estreams }
+
+/-- the second attempt inside `handleError`: election unless the cause is SubsetError; wait loop; the processes run
+    again (each releasing its previous subscription first); the loop's deferred releases -/
+def secondAttempt (elect : Led → Sid → Led) (l : Led) (s : Sess) (t : Second) (b1 : Option Nat) : Led × Option Nat :=
+  let l2 := if t.elected = .any then l else elect l s.sid
+  let (l3, c) := l2.sub s.sid (waitSubs2 t.elected)
+  let (l4, b2) := if t.fin.ran then
+      let (l', b) := (l3.unsubOpt s.sid b1).sub s.sid s.nproc
+      (l', some b)
+    else (l3, b1)
+  (l4.unsub s.sid c, b2)
+
+/-- `handleError` is entered when the first attempt returned an error and the processes are retryable -/
+def Sess.handled (s : Sess) : Bool := s.retryable && !s.out.retOk
+
+/-- `Execute` for one session, in the order the code performs the calls. `elect` = the elector's behaviour. -/
+def executeWith (elect : Led → Sid → Led) (l : Led) (s : Sess) : Led × Report :=
+  if s.sid ∈ l.pending then
     -- refused before anything is registered; the (never started) processes are stopped
-    (r, ⟨.refused, 0, 0, 0, (r.live.filter (·.1 = s.sid)).length, if s.sid ∈ r.streams then 1 else 0,
-        List.replicate s.nproc 0, List.replicate s.nproc 1, true⟩)
+    (l, ⟨.refused, 0, 0, 0, liveOf l.live s.sid, if s.sid ∈ l.streams then 1 else 0,
+        List.replicate s.nproc 0, List.replicate s.nproc 1, true,
+        liveOf l.elive s.sid, if s.sid ∈ l.estreams then 1 else 0⟩)
   else
-    let r1 := { r with pending := s.sid :: r.pending }
+    let l1 := { l with pending := s.sid :: l.pending }
     -- watchExecution + start (waitForStart | initiate) subscribe
-    let (r2, wids) := r1.subscribe s.sid (waitSubs s.role)
+    let (l2, a) := l1.sub s.sid (waitSubs s.role)
     -- broadcasting (initiate / ready / start messages) opens streams under the session id
-    let r3 := { r2 with streams := s.sid :: r2.streams }
+    let l3 := { l2 with streams := s.sid :: l2.streams }
     -- every process subscribes in Run
-    let (r4, pids) := r3.subscribe s.sid (if s.out.ran then s.nproc else 0)
+    let (l4, b1) := if s.out.ran then
+        let (l', b) := l3.sub s.sid s.nproc
+        (l', some b)
+      else (l3, none)
     -- the wait loops' deferred UnSubscribe
-    let r5 := r4.unsubscribe wids
+    let l5 := l4.unsub s.sid a
+    -- handleError: its own fail-watch first; a second attempt if it classifies the failure; then the watch is released
+    let (l6, b) := if s.handled then
+        let (la, w2) := l5.sub s.sid 1
+        let (lb, b) := match s.second with
+          | some t => secondAttempt elect la s t b1
+          | none => (la, b1)
+        (lb.unsub s.sid w2, b)
+      else (l5, b1)
     -- Execute's deferred block: CloseSession; flag := false; Stop every process
-    let r6 := { r5 with streams := r5.streams.filter (· ≠ s.sid) }
-    let r7 := { r6 with pending := r6.pending.filter (· ≠ s.sid) }
-    let r8 := r7.unsubscribe pids
-    (r8, ⟨if s.out.retOk then .ok else .err,
-          wids.length + pids.length, wids.length + pids.length, 1,
-          (r8.live.filter (·.1 = s.sid)).length, if s.sid ∈ r8.streams then 1 else 0,
-          List.replicate s.nproc (if s.out.ran then 1 else 0), List.replicate s.nproc 1,
-          decide (s.sid ∈ r8.pending)⟩)
+    let l7 := { l6 with streams := l6.streams.filter (· ≠ s.sid) }
+    let l8 := { l7 with pending := l7.pending.filter (· ≠ s.sid) }
+    let l9 := l8.unsubOpt s.sid b
+    let retOk := if s.handled then (match s.second with
+      | some t => t.fin.retOk
+      | none => false) else s.out.retOk
+    let ran2 := s.handled && (match s.second with
+      | some t => t.fin.ran
+      | none => false)
+    (l9, ⟨if retOk then .ok else .err,
+          l9.subs - l.subs, l9.unsubs - l.unsubs, 1,
+          liveOf l9.live s.sid, if s.sid ∈ l9.streams then 1 else 0,
+          List.replicate s.nproc ((if s.out.ran then 1 else 0) + (if ran2 then 1 else 0)), List.replicate s.nproc 1,
+          decide (s.sid ∈ l9.pending),
+          liveOf l9.elive s.sid, if s.sid ∈ l9.estreams then 1 else 0⟩)
+
+def execute : Led → Sess → Led × Report := executeWith election
 
 /-- sessions one after another on one coordinator -/
-def executeAll (r : Reg) : List Sess → Reg × List Report
-  | [] => (r, [])
+def executeAll (l : Led) : List Sess → Led × List Report
+  | [] => (l, [])
   | s :: ss =>
-    let (r', rep) := execute r s
-    let (r'', reps) := executeAll r' ss
-    (r'', rep :: reps)
+    let (l', rep) := execute l s
+    let (l'', reps) := executeAll l' ss
+    (l'', rep :: reps)
 
 /-- the property of one finished session, on a report (the driver evaluates it on the implementation's report) -/
 def Clean (nproc : Nat) (rep : Report) : Prop :=
   rep.ret ≠ .refused ∧ rep.sub = rep.unsub ∧ 1 ≤ rep.close ∧ rep.live = 0 ∧ rep.streams = 0 ∧
-  rep.stops = List.replicate nproc 1 ∧ (∀ n ∈ rep.runs, n ≤ 1) ∧ rep.pend = false
+  rep.stops = List.replicate nproc 1 ∧ (∀ n ∈ rep.runs, n ≤ 2) ∧ rep.pend = false ∧
+  rep.elive = 0 ∧ rep.estreams = 0
 
 instance (n : Nat) (rep : Report) : Decidable (Clean n rep) := by unfold Clean; infer_instance
+
+/-- nothing left of any session -/
+def Led.Idle (l : Led) : Prop :=
+  l.pending = [] ∧ (∀ s, l.live s = []) ∧ l.streams = [] ∧ (∀ s, l.elive s = []) ∧ l.estreams = []
+
+def Led.empty (n : Nat) : Led := ⟨[], fun _ => [], [], fun _ => [], [], n, 0, 0⟩
 
 /-! ### a retryable (signing) process object that is Run several times and stopped once -/
 
@@ -230,8 +368,5 @@ def stopProc (st : Reg × Option Nat) : Reg :=
 
 def rerun (r : Reg) (sid : Sid) (n : Nat) : Reg := stopProc (iter (runAgain sid) n (r, none))
 def rerunAsFound (r : Reg) (sid : Sid) (n : Nat) : Reg := stopProc (iter (runAgainAsFound sid) n (r, none))
-
-/-- registries with nothing left of any session -/
-def Reg.Idle (r : Reg) : Prop := r.pending = [] ∧ r.live = [] ∧ r.streams = []
 
 end Sygma.C09
